@@ -77,7 +77,7 @@ def isFail {α : Type} : Out α → Bool
 
 mutual
   /-- run one op; returns the printed results, whether the op failed, the reader -/
-  partial def runOpR (W : Nat) (op : Op) (r : Reader.Rd) : List String × Bool × Reader.Rd :=
+  def runOpR (W : Nat) (op : Op) (r : Reader.Rd) : List String × Bool × Reader.Rd :=
     match op with
     | .pk n => let (o, r') := Reader.peekBits W n r; ([showOut toString o], isFail o, r')
     | .rd n => let (o, r') := Reader.readBits W n r; ([showOut toString o], isFail o, r')
@@ -112,7 +112,7 @@ mutual
       | (_, r'') => (outs ++ ["la-rollback-failed"], true, r'')
 
   /-- a closure body: stops at the first failing op (`?`) -/
-  partial def runBodyR (W : Nat) (ops : List Op) (r : Reader.Rd) : List String × Bool × Reader.Rd :=
+  def runBodyR (W : Nat) (ops : List Op) (r : Reader.Rd) : List String × Bool × Reader.Rd :=
     match ops with
     | [] => ([], false, r)
     | op :: rest =>
@@ -129,6 +129,10 @@ def runTopR (W : Nat) (ops : List Op) (r : Reader.Rd) : List String × Reader.Rd
 
 /-! ### interpreter over the specification machine (bit cursor): errors restore nothing because nothing was changed -/
 
+/-- a sign-extended `n`-bit value as the signed value of a `W`-bit pattern (identity for n ≤ W) -/
+def wrapW (_W : Nat) (v : Int) : Int := v
+
+
 def lift {α : Type} (show_ : α → String) (p : P α) (c : Cur) : List String × Bool × Cur :=
   match p c with
   | .ok (a, c') => (["=" ++ show_ a], false, c')
@@ -137,7 +141,7 @@ def lift {α : Type} (show_ : α → String) (p : P α) (c : Cur) : List String 
   | .fuel => (["FUEL"], true, c)
 
 mutual
-  partial def runOpS (W : Nat) (op : Op) (c : Cur) : List String × Bool × Cur :=
+  def runOpS (W : Nat) (op : Op) (c : Cur) : List String × Bool × Cur :=
     match op with
     | .pk n => (match H263V.peekBits W n c with
                 | .ok v => (["=" ++ toString v], false, c)
@@ -151,7 +155,7 @@ mutual
                 | _ => (["PANIC"], true, c))
     | .rs n => lift (fun v => toString (wrapW W v)) (H263V.readSignedBits W n) c
     | .sc e => lift (fun x => match x with | some k => toString k | none => "none") (H263V.recognizeStartCode e) c
-    | .cm => (["=cm"], false, c)
+    | .cm => (["=cm"], false, { c with pos := c.pos % 8 })
     | .vl k =>
       -- a bare failed `read_vlc` keeps the bits it consumed before failing (documented: "the position of the
       -- bitstream is undefined"); inside a transaction the enclosing combinator restores the position
@@ -178,7 +182,7 @@ mutual
     | .la body =>
       let (outs, failed, _) := runBodyS W body c
       (outs ++ [if failed then "la-err" else "la-ok"], failed, c)
-  partial def runBodyS (W : Nat) (ops : List Op) (c : Cur) : List String × Bool × Cur :=
+  def runBodyS (W : Nat) (ops : List Op) (c : Cur) : List String × Bool × Cur :=
     match ops with
     | [] => ([], false, c)
     | op :: rest =>
@@ -186,8 +190,6 @@ mutual
       if failed then (o, true, c') else
       let (o2, f2, c'') := runBodyS W rest c'
       (o ++ o2, f2, c'')
-  /-- a sign-extended `n`-bit value as the signed value of a `W`-bit pattern (identity for n ≤ W) -/
-  partial def wrapW (_W : Nat) (v : Int) : Int := v
 end
 
 def runTopS (W : Nat) (ops : List Op) (c : Cur) : List String × Cur :=
